@@ -1,7 +1,7 @@
 (* C35 - the map list and its modelled sections end on every byte string, whatever counts the file announces. *)
 From Coq Require Import ZArith List Bool Lia.
 Require Import V.Lib.Val V.Lib.Result V.Dex.LebModel V.Dex.StringsModel V.Dex.MapWalkModel.
-Require V.Misc.TermProofs V.Dex.EncodedValueModel V.Dex.DexTerm.
+Require V.Misc.TermProofs V.Dex.EncodedValueModel V.Dex.DexTerm V.Dex.ClassDataModel.
 Import ListNotations.
 Open Scope Z_scope.
 
@@ -216,6 +216,57 @@ Proof.
   unfold rd_annotation. destruct (Nat.leb_spec fuel (length bs)); [discriminate | lia].
 Qed.
 
+(* class data *)
+Lemma read_fields_facts : forall fuel cnt prev bs,
+  noo (ClassDataModel.read_fields fuel cnt prev bs) /\ forall x r, ClassDataModel.read_fields fuel cnt prev bs = Ok (x, r) -> (length r <= length bs)%nat.
+Proof.
+  induction fuel as [|f IH]; intros cnt prev bs; cbn [ClassDataModel.read_fields]; destruct (cnt <=? 0).
+  - split; [discriminate|]. intros x r H. injection H as _ <-. lia.
+  - split; discriminate.
+  - split; [discriminate|]. intros x r H. injection H as _ <-. lia.
+  - destruct (read_u bs) as [[d r1]|e] eqn:U1; cbn [bind]; [|split; [intros H; injection H as ->; exact (read_u_noo _ U1) | discriminate]].
+    pose proof (read_u_progress _ _ _ U1).
+    destruct (read_u r1) as [[fl r2]|e] eqn:U2; cbn [bind]; [|split; [intros H'; injection H' as ->; exact (read_u_noo _ U2) | discriminate]].
+    pose proof (read_u_progress _ _ _ U2). destruct (IH (cnt - 1) (prev + d) r2) as [N S].
+    destruct (ClassDataModel.read_fields f (cnt - 1) (prev + d) r2) as [[rest r3]|e] eqn:R; cbn [bind].
+    + split; [discriminate|]. intros x r H'. injection H' as _ <-. specialize (S rest r3 eq_refl). lia.
+    + split; [|discriminate]. intros H'. injection H' as ->. exact (N eq_refl).
+Qed.
+Lemma read_methods_facts : forall fuel cnt prev bs,
+  noo (ClassDataModel.read_methods fuel cnt prev bs) /\ forall x r, ClassDataModel.read_methods fuel cnt prev bs = Ok (x, r) -> (length r <= length bs)%nat.
+Proof.
+  induction fuel as [|f IH]; intros cnt prev bs; cbn [ClassDataModel.read_methods]; destruct (cnt <=? 0).
+  - split; [discriminate|]. intros x r H. injection H as _ <-. lia.
+  - split; discriminate.
+  - split; [discriminate|]. intros x r H. injection H as _ <-. lia.
+  - destruct (read_u bs) as [[d r1]|e] eqn:U1; cbn [bind]; [|split; [intros H; injection H as ->; exact (read_u_noo _ U1) | discriminate]].
+    pose proof (read_u_progress _ _ _ U1).
+    destruct (read_u r1) as [[fl r2]|e] eqn:U2; cbn [bind]; [|split; [intros H'; injection H' as ->; exact (read_u_noo _ U2) | discriminate]].
+    pose proof (read_u_progress _ _ _ U2).
+    destruct (read_u r2) as [[co r3]|e] eqn:U3; cbn [bind]; [|split; [intros H'; injection H' as ->; exact (read_u_noo _ U3) | discriminate]].
+    pose proof (read_u_progress _ _ _ U3). destruct (IH (cnt - 1) (prev + d) r3) as [N S].
+    destruct (ClassDataModel.read_methods f (cnt - 1) (prev + d) r3) as [[rest r4]|e] eqn:R; cbn [bind].
+    + split; [discriminate|]. intros x r H'. injection H' as _ <-. specialize (S rest r4 eq_refl). lia.
+    + split; [|discriminate]. intros H'. injection H' as ->. exact (N eq_refl).
+Qed.
+Lemma classdata_facts bs : noo (rd_classdata bs) /\ forall x r, rd_classdata bs = Ok (x, r) -> (length r < length bs)%nat.
+Proof.
+  unfold rd_classdata, ClassDataModel.read_class_data.
+  destruct (read_u bs) as [[ns r1]|e] eqn:U1; cbn [bind]; [|split; [intros H; injection H as ->; exact (read_u_noo _ U1) | discriminate]]. pose proof (read_u_progress _ _ _ U1).
+  destruct (read_u r1) as [[ni r2]|e] eqn:U2; cbn [bind]; [|split; [intros H'; injection H' as ->; exact (read_u_noo _ U2) | discriminate]]. pose proof (read_u_progress _ _ _ U2).
+  destruct (read_u r2) as [[nd r3]|e] eqn:U3; cbn [bind]; [|split; [intros H'; injection H' as ->; exact (read_u_noo _ U3) | discriminate]]. pose proof (read_u_progress _ _ _ U3).
+  destruct (read_u r3) as [[nv r4]|e] eqn:U4; cbn [bind]; [|split; [intros H'; injection H' as ->; exact (read_u_noo _ U4) | discriminate]]. pose proof (read_u_progress _ _ _ U4).
+  destruct (read_fields_facts (length r4) ns 0 r4) as [N1 S1].
+  destruct (ClassDataModel.read_fields (length r4) ns 0 r4) as [[sf r5]|e] eqn:R1; cbn [bind]; [|split; [intros H'; injection H' as ->; exact (N1 eq_refl) | discriminate]]. specialize (S1 sf r5 eq_refl).
+  destruct (read_fields_facts (length r5) ni 0 r5) as [N2 S2].
+  destruct (ClassDataModel.read_fields (length r5) ni 0 r5) as [[inf r6]|e] eqn:R2; cbn [bind]; [|split; [intros H'; injection H' as ->; exact (N2 eq_refl) | discriminate]]. specialize (S2 inf r6 eq_refl).
+  destruct (read_methods_facts (length r6) nd 0 r6) as [N3 S3].
+  destruct (ClassDataModel.read_methods (length r6) nd 0 r6) as [[dm r7]|e] eqn:R3; cbn [bind]; [|split; [intros H'; injection H' as ->; exact (N3 eq_refl) | discriminate]]. specialize (S3 dm r7 eq_refl).
+  destruct (read_methods_facts (length r7) nv 0 r7) as [N4 S4].
+  destruct (ClassDataModel.read_methods (length r7) nv 0 r7) as [[vm r8]|e] eqn:R4; cbn [bind]; [|split; [intros H'; injection H' as ->; exact (N4 eq_refl) | discriminate]]. specialize (S4 vm r8 eq_refl).
+  split; [discriminate|]. intros x r H'. injection H' as _ <-. lia.
+Qed.
+
 Lemma seek_length buf p : (length (seek buf p) <= length buf)%nat.
 Proof. unfold seek. destruct (p <? 0); [lia|]. rewrite skipn_length. lia. Qed.
 
@@ -233,7 +284,7 @@ Qed.
 Theorem section_ends : forall buf ty count off, noo (section (S (length buf)) buf ty count off).
 Proof.
   intros buf ty count off. unfold section. pose proof (seek_length buf (start_of ty off)) as SL. set (bs := seek buf (start_of ty off)) in *.
-  destruct (kind_of ty) as [[k|k p| | | | | | | |]|] eqn:K; try discriminate.
+  destruct (kind_of ty) as [[k|k p| | | | | | | | |]|] eqn:K; try discriminate.
   - destruct (read_n (rd_fixed k) (S (length buf)) count bs []) as [[xs r]|e] eqn:R; cbn [bind]; [discriminate|]. intros H. injection H as ->.
     revert R. apply (read_n_ends _ (rd_fixed k) (S (length buf))); try lia; [intros; apply fixed_noo | apply fixed_progress; exact (kind_fixed_pos _ _ K)].
   - pose proof (kind_sized_pos _ _ _ K) as KP.
@@ -259,6 +310,8 @@ Proof.
     revert R. apply (read_n_ends _ (rd_annotation (S (length buf))) (S (length buf))); try lia.
     + intros b Hb. apply annotation_facts. lia.
     + intros b x r. apply annotation_progress.
+  - destruct (read_n rd_classdata (S (length buf)) count bs []) as [[xs r]|e] eqn:R; cbn [bind]; [discriminate|]. intros H. injection H as ->.
+    revert R. apply (read_n_ends _ rd_classdata (S (length buf))); try lia; [intros b _; exact (proj1 (classdata_facts b)) | intros b x r; exact (proj2 (classdata_facts b) x r)].
 Qed.
 
 Lemma sections_end buf : forall items, noo (sections (S (length buf)) buf items).
